@@ -409,7 +409,14 @@ func (r *raceW) Body() {
 		}
 	}
 	sched.Go("ctl", r.ctl)
-	opts := []Option{WithLogger(nopLogger{}), WithNumEventLoop(r.cfg.loops), WithLoadBalancing(LeastConnections), WithTicker(r.cfg.kind == "async")}
+	// Engine.Register picks the loop on the caller's goroutine while the acceptor picks loops on its
+	// own: the Register scenario runs the source-address-hash policy (documented as safe for that),
+	// all others least-connections (round-robin is documented as not safe for concurrent Register)
+	lb := LeastConnections
+	if r.cfg.kind == "execute-register" {
+		lb = SourceAddrHash
+	}
+	opts := []Option{WithLogger(nopLogger{}), WithNumEventLoop(r.cfg.loops), WithLoadBalancing(lb), WithTicker(r.cfg.kind == "async")}
 	if r.cfg.et {
 		opts = append(opts, WithEdgeTriggeredIO(true))
 	}
